@@ -6,7 +6,7 @@ import DnsModel.Lemmas.InsertRec
 namespace Dns
 open Res
 
-/-- removing a non-OPT piece (or any piece of a section that cannot hold OPT) keeps a run of pieces -/
+/-- a piece either is the OPT record (additional section, first of its kind) or fits under any flag -/
 theorem pieceOK_flags {sec : Section} {rc : Bytes} {ob oa : Bool} (h : PieceOK sec rc ob oa) :
     (ob = false ∧ oa = true ∧ sec = .additional) ∨ (oa = ob ∧ ∀ b, PieceOK sec rc b b) := by
   obtain ⟨p0, r0, hr, hc⟩ := h
@@ -17,44 +17,513 @@ theorem pieceOK_flags {sec : Section} {rc : Bytes} {ob oa : Bool} (h : PieceOK s
   · simp only [h41, if_false] at h5
     refine Or.inr ⟨h5.2, fun b => ⟨p0, r0, ⟨h1, h2, h3, h4, ?_⟩, hc⟩⟩
     simp only [h41, if_false]
-    exact ⟨h5.1, rfl⟩
+    exact ⟨h5.1, trivial⟩
 
-theorem pieces_nonadditional {sec : Section} (hs : sec ≠ .additional) {ps : List Bytes} {ob oe : Bool} (h : Pieces sec ps ob oe) :
-    oe = ob ∧ ∀ b, Pieces sec ps b b := by
+theorem Pieces.split {sec : Section} {ps qs : List Bytes} {ob oe : Bool} (h : Pieces sec (ps ++ qs) ob oe) :
+    ∃ om, Pieces sec ps ob om ∧ Pieces sec qs om oe := by
+  induction ps generalizing ob with
+  | nil => exact ⟨ob, Pieces.nil _, h⟩
+  | cons x ps ih =>
+    cases h with
+    | cons hp hrest =>
+      obtain ⟨om, h1, h2⟩ := ih hrest
+      exact ⟨om, Pieces.cons hp h1, h2⟩
+
+/-- once OPT has been seen (or where it cannot occur) the flag no longer matters -/
+theorem pieces_any_flag {sec : Section} {ps : List Bytes} {ob oe : Bool} (h : Pieces sec ps ob oe)
+    (hs : sec ≠ .additional ∨ ob = true) : oe = ob ∧ ∀ b, Pieces sec ps b b := by
   induction h with
   | nil o => exact ⟨rfl, fun b => Pieces.nil b⟩
   | cons hp _ ih =>
-    rcases pieceOK_flags hp with ⟨_, _, hsec⟩ | ⟨e, hall⟩
-    · exact absurd hsec hs
+    rcases pieceOK_flags hp with ⟨hf, _, hsec⟩ | ⟨e, hall⟩
+    · rcases hs with hs | hs
+      · exact absurd hsec hs
+      · rw [hs] at hf; cases hf
     · subst e
-      exact ⟨ih.1, fun b => Pieces.cons (hall b) (ih.2 b)⟩
+      obtain ⟨e2, h2⟩ := ih hs
+      exact ⟨e2, fun b => Pieces.cons (hall b) (h2 b)⟩
 
-theorem pieces_remove_nonadditional {sec : Section} (hs : sec ≠ .additional) {ps1 ps2 : List Bytes} {rc : Bytes} {ob oe : Bool}
-    (h : Pieces sec (ps1 ++ rc :: ps2) ob oe) : Pieces sec (ps1 ++ ps2) ob oe := by
-  obtain ⟨e, hall⟩ := pieces_nonadditional hs h
-  subst e
-  have hall' : ∀ b, Pieces sec (ps1 ++ ps2) b b := by
-    intro b
-    have := hall b
-    clear h hall
-    induction ps1 with
-    | nil =>
-      cases this with
-      | cons _ hrest =>
-        rename_i om
-        obtain ⟨e2, h2⟩ := pieces_nonadditional hs hrest
-        exact h2 b
-    | cons x ps1 ih =>
-      cases this with
-      | cons hp hrest =>
-        rename_i om
-        rcases pieceOK_flags hp with ⟨_, _, hsec⟩ | ⟨e, hx⟩
-        · exact absurd hsec hs
-        · obtain ⟨e2, h2⟩ := pieces_nonadditional hs hrest
-          have : om = b := e
-          subst this
-          subst e2
-          exact Pieces.cons hp (ih hrest)
-  exact hall' ob
+/-- removing one piece keeps a run of pieces -/
+theorem pieces_remove {sec : Section} {ps1 ps2 : List Bytes} {rc : Bytes} {ob oe : Bool}
+    (h : Pieces sec (ps1 ++ rc :: ps2) ob oe) : ∃ oe', Pieces sec (ps1 ++ ps2) ob oe' ∧ (sec ≠ .additional → oe' = oe) := by
+  obtain ⟨om, h1, h2⟩ := Pieces.split h
+  cases h2 with
+  | cons hp hrest =>
+    rename_i om'
+    rcases pieceOK_flags hp with ⟨hf, ht, hsec⟩ | ⟨e, _⟩
+    · subst hf; subst ht
+      obtain ⟨e2, hall⟩ := pieces_any_flag hrest (Or.inr rfl)
+      exact ⟨false, h1.append (hall false), fun hne => absurd hsec hne⟩
+    · subst e
+      exact ⟨oe, h1.append hrest, fun _ => rfl⟩
+
+end Dns
+
+namespace Dns
+open Res
+
+theorem PlainObj.o2_false {pp : PP} (P : PlainObj pp) : P.o2 = false := (pieces_any_flag P.hA (Or.inl (by decide))).1
+theorem PlainObj.o3_false {pp : PP} (P : PlainObj pp) : P.o3 = false := by
+  have := (pieces_any_flag P.hN (Or.inl (by decide))).1
+  rw [this, P.o2_false]
+
+theorem flatten_mid (A1 A2 : List Bytes) (rc : Bytes) : (A1 ++ rc :: A2).flatten = A1.flatten ++ rc ++ A2.flatten := by simp
+
+/-- cutting `rc` out of `pre ++ rc ++ post` -/
+theorem cut_mid (pre rc post : Bytes) :
+    (pre ++ rc ++ post).take pre.length ++ (pre ++ rc ++ post).drop (pre.length + rc.length) = pre ++ post := by
+  have e : pre ++ rc ++ post = pre ++ (rc ++ post) := by simp
+  have e2 : pre ++ rc ++ post = (pre ++ rc) ++ post := rfl
+  have hl : pre.length + rc.length = (pre ++ rc).length := by simp
+  conv => lhs; arg 1; rw [e, List.take_append_length]
+  rw [hl, List.drop_append_length]
+
+/-- `current_section` reads only the section starts and the cursor's position -/
+theorem currentSection_frame (pp : PP) (c : Cursor) (x : Bytes) (n : Nat) :
+    Cursor.currentSection { pp with packet := x } { c with offsetNext := n } = Cursor.currentSection pp c := rfl
+
+theorem shiftNat_neg {x len : Nat} (h : len ≤ x) : shiftNat x (-(Int.ofNat len)) = x - len := by
+  unfold shiftNat
+  simp only [Int.ofNat_eq_natCast]
+  omega
+
+theorem sub_ok {a b : Nat} (h : b ≤ a) : sub a b = .ok (a - b) := by simp [sub, h]
+
+/-- the object `resize_rr` leaves: new bytes, later starts shifted -/
+def PP.afterResize (pp : PP) (c : Cursor) (sect : Section) (shift : Int) (newPacket : Bytes) : PP :=
+  let sh (o : Option Nat) : Option Nat := o.map (fun x => shiftNat x shift)
+  let pp := { pp with packet := newPacket }
+  let pp := if optLt c.offset pp.offsetEdns then { pp with offsetEdns := sh pp.offsetEdns } else pp
+  let pp := if sect == .nameServers || sect == .answer || sect == .question
+            then { pp with offsetAdditional := sh pp.offsetAdditional } else pp
+  let pp := if sect == .answer || sect == .question
+            then { pp with offsetNameservers := sh pp.offsetNameservers } else pp
+  if sect == .question then { pp with offsetAnswers := sh pp.offsetAnswers } else pp
+
+/-- `resize_rr` with a negative shift: the `len` bytes at the cursor go -/
+theorem resizeRR_shrink (pp : PP) (c : Cursor) (off len : Nat) (sect : Section) (hoff : c.offset = some off) (hlen : 0 < len)
+    (hle : off + len ≤ pp.packet.length) (hnx : len ≤ c.offsetNext) (hnx2 : c.offsetNext ≤ pp.packet.length)
+    (hcs : c.currentSection pp = .ok sect) :
+    resizeRR pp c (-(Int.ofNat len)) =
+      .ok { pp := pp.afterResize c sect (-(Int.ofNat len)) (pp.packet.take off ++ pp.packet.drop (off + len)),
+            cur := { c with offsetNext := c.offsetNext - len }, result := none } := by
+  unfold resizeRR
+  have hz : (-(Int.ofNat len) == 0) = false := by
+    simp only [beq_eq_false_iff_ne, ne_eq, Int.neg_eq_zero]
+    intro h
+    have : (len : Int) = 0 := h
+    omega
+  have hpos : ¬ (-(Int.ofNat len) > 0) := by
+    have : (0 : Int) ≤ Int.ofNat len := Int.natCast_nonneg _
+    omega
+  have hneg : (- -(Int.ofNat len)).toNat = len := by simp
+  simp only [hz, Bool.false_eq_true, if_false, hoff, hpos, hneg]
+  have c1 : ¬ (pp.packet.length < len) := by omega
+  have c2 : ¬ (off + len > pp.packet.length) := by omega
+  simp only [c1, c2, if_false, pure_eq, bind_ok]
+  have hn : (Int.ofNat c.offsetNext + -(Int.ofNat len)) = Int.ofNat (c.offsetNext - len) := by
+    simp only [Int.ofNat_eq_natCast]
+    omega
+  rw [hn]
+  have hnl : (pp.packet.take off ++ pp.packet.drop (off + len)).length = pp.packet.length - len := by
+    simp only [List.length_append, List.length_take, List.length_drop]; omega
+  have c3 : (decide (Int.ofNat (c.offsetNext - len) < 0) || decide ((Int.ofNat (c.offsetNext - len)).toNat >
+      (pp.packet.take off ++ pp.packet.drop (off + len)).length)) = false := by
+    rw [hnl]
+    simp only [Int.ofNat_eq_natCast, Int.toNat_natCast, Bool.or_eq_false_iff, decide_eq_false_iff_not]
+    constructor <;> omega
+  simp only [c3, Bool.false_eq_true, if_false]
+  have key : ∀ (x : Bytes) (cc : Cursor), cc.offset = some off → Cursor.currentSection { pp with packet := x } cc = .ok sect := by
+    intro x cc h
+    unfold Cursor.currentSection at hcs ⊢
+    rw [hoff] at hcs
+    simp only [h]
+    exact hcs
+  rw [key _ _ rfl]
+  simp only [mOk, PP.afterResize, Int.ofNat_eq_natCast, Int.toNat_natCast, hoff]
+
+theorem sectionCount_hdr {hdr rest : Bytes} (hh : hdr.length = 12) (s : Section) (hs : s ≠ .edns) :
+    sectionCount (hdr ++ rest) s = .ok (get16 hdr (sectionCountOffset s)) := by
+  cases s <;> first | exact absurd rfl hs | skip
+  all_goals
+    simp only [sectionCount, qdcount, ancount, nscount, arcount, sectionCountOffset]
+    rw [be16_of_le' (by simp [hh] <;> omega), get16_append_left (by rw [hh]; omega)]
+
+/-- `rrcount_dec` on a packet whose header says `n > 0` -/
+theorem rrcountDec_ok (pp : PP) (s : Section) (hs : s ≠ .edns) {hdr rest : Bytes} (hpk : pp.packet = hdr ++ rest)
+    (hh : hdr.length = 12) (hpos : 0 < get16 hdr (sectionCountOffset s)) :
+    ∃ hdr', rrcountDec pp s = .ok ({ pp with packet := hdr' ++ rest }, get16 hdr (sectionCountOffset s) - 1) ∧
+      hdr'.length = 12 ∧ get16 hdr' (sectionCountOffset s) = get16 hdr (sectionCountOffset s) - 1 ∧
+      ∀ k, (k + 1 < sectionCountOffset s ∨ sectionCountOffset s + 1 < k) → get16 hdr' k = get16 hdr k := by
+  have hlt : get16 hdr (sectionCountOffset s) < 65536 := get16_lt _ _
+  have hso : sectionCountOffset s + 2 ≤ 12 := by cases s <;> simp [sectionCountOffset]
+  obtain ⟨hdr', hw, hh', hg, hgo⟩ := patch_header (rest := rest) hh (sectionCountOffset s) (get16 hdr (sectionCountOffset s) - 1) hso (by omega)
+  refine ⟨hdr', ?_, hh', hg, hgo⟩
+  unfold rrcountDec
+  rw [hpk, sectionCount_hdr hh s hs]
+  have : ¬ (get16 hdr (sectionCountOffset s) ≤ 0) := by omega
+  simp only [bind_ok, this, if_false, hw, pure_eq]
+
+def PP.clearEdns (pp : PP) : PP :=
+  { pp with offsetEdns := none, ednsCount := 0, extRcode := none, ednsVersion := none, extFlags := none, maxPayload := 512 }
+
+def PP.clearSection (pp : PP) : Section → PP
+  | .question => { pp with offsetQuestion := none }
+  | .answer => { pp with offsetAnswers := none }
+  | .nameServers => { pp with offsetNameservers := none }
+  | .additional => { pp with offsetAdditional := none }
+  | .edns => pp
+
+/-- the object `delete` leaves -/
+def PP.afterDelete (pp : PP) (c : Cursor) (sect : Section) (len : Nat) (isOpt : Bool) (newPacket : Bytes) (left : Nat) : PP :=
+  let pp := pp.afterResize c sect (-(Int.ofNat len)) newPacket
+  let pp := { pp with cached := none }
+  let pp := if isOpt then pp.clearEdns else pp
+  if left ≤ 0 then pp.clearSection sect else pp
+
+theorem afterResize_packet (pp : PP) (c : Cursor) (sect : Section) (shift : Int) (x : Bytes) :
+    (pp.afterResize c sect shift x).packet = x := by
+  simp only [PP.afterResize]
+  repeat' split
+  all_goals rfl
+
+theorem afterResize_setPacket (pp : PP) (c : Cursor) (sect : Section) (shift : Int) (x y : Bytes) :
+    { pp.afterResize c sect shift x with packet := y } = pp.afterResize c sect shift y := by
+  cases h : optLt c.offset pp.offsetEdns <;> cases sect <;> simp [PP.afterResize, h]
+
+/-- the fields of the object `delete` leaves -/
+theorem afterDelete_fields (pp : PP) (c : Cursor) (sect : Section) (len : Nat) (isOpt : Bool) (x : Bytes) (left : Nat) :
+    (pp.afterDelete c sect len isOpt x left).packet = x ∧
+    (pp.afterDelete c sect len isOpt x left).maybeCompressed = pp.maybeCompressed ∧
+    (pp.afterDelete c sect len isOpt x left).cached = none ∧
+    (pp.afterDelete c sect len isOpt x left).offsetQuestion =
+      (if sect = .question ∧ left = 0 then none else pp.offsetQuestion) ∧
+    (pp.afterDelete c sect len isOpt x left).offsetAnswers =
+      (if sect = .answer ∧ left = 0 then none
+       else if sect = .question then pp.offsetAnswers.map (fun x => shiftNat x (-(Int.ofNat len))) else pp.offsetAnswers) ∧
+    (pp.afterDelete c sect len isOpt x left).offsetNameservers =
+      (if sect = .nameServers ∧ left = 0 then none
+       else if sect = .question ∨ sect = .answer then pp.offsetNameservers.map (fun x => shiftNat x (-(Int.ofNat len))) else pp.offsetNameservers) ∧
+    (pp.afterDelete c sect len isOpt x left).offsetAdditional =
+      (if sect = .additional ∧ left = 0 then none
+       else if sect = .question ∨ sect = .answer ∨ sect = .nameServers then pp.offsetAdditional.map (fun x => shiftNat x (-(Int.ofNat len))) else pp.offsetAdditional) ∧
+    (pp.afterDelete c sect len isOpt x left).offsetEdns =
+      (if isOpt then none else if optLt c.offset pp.offsetEdns then pp.offsetEdns.map (fun x => shiftNat x (-(Int.ofNat len))) else pp.offsetEdns) ∧
+    (pp.afterDelete c sect len isOpt x left).ednsCount = (if isOpt then 0 else pp.ednsCount) ∧
+    (pp.afterDelete c sect len isOpt x left).extRcode = (if isOpt then none else pp.extRcode) ∧
+    (pp.afterDelete c sect len isOpt x left).ednsVersion = (if isOpt then none else pp.ednsVersion) ∧
+    (pp.afterDelete c sect len isOpt x left).extFlags = (if isOpt then none else pp.extFlags) ∧
+    (pp.afterDelete c sect len isOpt x left).maxPayload = (if isOpt then 512 else pp.maxPayload) := by
+  cases h : optLt c.offset pp.offsetEdns <;> cases sect <;> cases isOpt <;> cases left <;>
+    simp [PP.afterDelete, PP.afterResize, PP.clearEdns, PP.clearSection, h]
+
+/-- `delete` on a pointer-free object, step by step -/
+theorem deleteRR_run (pp : PP) (c : Cursor) (off : Nat) (sect : Section) (isOpt : Bool) {hdr rest : Bytes}
+    (hoff : c.offset = some off) (hcs : c.currentSection pp = .ok sect) (hs : sect ≠ .edns) (hmc : pp.maybeCompressed = false)
+    (hopt : (if sect == .additional then do let t ← c.rrType pp.packet; pure (t == TYPE_OPT) else pure false) = Res.ok isOpt)
+    (hlt : off < c.offsetNext) (hle : c.offsetNext ≤ pp.packet.length)
+    (hcut : pp.packet.take off ++ pp.packet.drop c.offsetNext = hdr ++ rest) (hh : hdr.length = 12)
+    (hpos : 0 < get16 hdr (sectionCountOffset sect)) :
+    ∃ hdr', deleteRR pp c = .ok { pp := pp.afterDelete c sect (c.offsetNext - off) isOpt (hdr' ++ rest) (get16 hdr (sectionCountOffset sect) - 1),
+                                  cur := { c with offsetNext := off, offset := none }, result := none } ∧
+      hdr'.length = 12 ∧ get16 hdr' (sectionCountOffset sect) = get16 hdr (sectionCountOffset sect) - 1 ∧
+      ∀ k, (k + 1 < sectionCountOffset sect ∨ sectionCountOffset sect + 1 < k) → get16 hdr' k = get16 hdr k := by
+  have hrs := resizeRR_shrink pp c off (c.offsetNext - off) sect hoff (by omega) (by omega) (by omega) hle hcs
+  have e1 : off + (c.offsetNext - off) = c.offsetNext := by omega
+  have e2 : c.offsetNext - (c.offsetNext - off) = off := by omega
+  rw [e1, e2, hcut] at hrs
+  let ppr : PP := pp.afterResize c sect (-(Int.ofNat (c.offsetNext - off))) (hdr ++ rest)
+  let pp2 : PP := { ppr with cached := none }
+  let pp3 : PP := if isOpt then pp2.clearEdns else pp2
+  have hp3 : pp3.packet = hdr ++ rest := by
+    have : ppr.packet = hdr ++ rest := afterResize_packet _ _ _ _ _
+    simp only [pp3, pp2, PP.clearEdns]
+    split <;> exact this
+  obtain ⟨hdr', hdec, hh', hg, hgo⟩ := rrcountDec_ok pp3 sect hs hp3 hh hpos
+  refine ⟨hdr', ?_, hh', hg, hgo⟩
+  unfold deleteRR
+  simp only [hoff, Option.isNone_some, Bool.false_eq_true, if_false, hcs, hmc, mOk, bind_ok, Option.isSome_none, pure_eq, unwrap]
+  simp only [pure_eq] at hopt
+  rw [hopt]
+  simp only [bind_ok, sub_ok (Nat.le_of_lt hlt), assert]
+  have hgt : decide (c.offsetNext - off > 0) = true := by simp; omega
+  simp only [hgt, if_true, bind_ok, hrs, Option.isSome_none, Bool.false_eq_true, if_false, hoff]
+  have hdec' : rrcountDec (if isOpt = true then PP.clearEdns { ppr with cached := none } else { ppr with cached := none }) sect = _ := hdec
+  simp only [PP.clearEdns, ppr] at hdec'
+  rw [hdec']
+  simp only [bind_ok, PP.afterDelete]
+  rw [← afterResize_setPacket pp c sect _ (hdr ++ rest) (hdr' ++ rest)]
+  cases isOpt <;> cases sect <;> simp only [PP.clearEdns, PP.clearSection, pp3, pp2, ppr, Bool.false_eq_true, if_false, if_true] <;>
+    split <;> rfl
+
+/-- **deleting a record of the answer section of a plain object** -/
+theorem delete_answer {pp : PP} (P : PlainObj pp) (A1 A2 : List Bytes) (rc : Bytes) (hsplit : P.A = A1 ++ rc :: A2)
+    (hrc : 0 < rc.length) (c : Cursor)
+    (hoff : c.offset = some (12 + labSum P.qls + 1 + 4 + A1.flatten.length))
+    (hnext : c.offsetNext = 12 + labSum P.qls + 1 + 4 + A1.flatten.length + rc.length) :
+    ∃ (pp' : PP) (P' : PlainObj pp'),
+      deleteRR pp c = .ok { pp := pp', cur := { c with offsetNext := 12 + labSum P.qls + 1 + 4 + A1.flatten.length, offset := none }, result := none } ∧
+      P'.A = A1 ++ A2 ∧ P'.N = P.N ∧ P'.R = P.R ∧ P'.qls = P.qls ∧ P'.q4 = P.q4 ∧
+      (∀ k, (k + 1 < 6 ∨ 7 < k) → get16 P'.hdr k = get16 P.hdr k) ∧
+      pp'.ednsCount = pp.ednsCount ∧ pp'.extRcode = pp.extRcode ∧ pp'.ednsVersion = pp.ednsVersion ∧
+      pp'.extFlags = pp.extFlags ∧ pp'.maxPayload = pp.maxPayload ∧
+      pp'.offsetEdns = (if optLt c.offset pp.offsetEdns then pp.offsetEdns.map (fun x => shiftNat x (-(Int.ofNat rc.length))) else pp.offsetEdns) := by
+  have hlen := P.len
+  have hAl : P.A.length = A1.length + A2.length + 1 := by rw [hsplit]; simp; omega
+  have hAf : P.A.flatten.length = A1.flatten.length + rc.length + A2.flatten.length := by rw [hsplit]; simp; omega
+  have hA' : (A1 ++ A2).flatten.length = A1.flatten.length + A2.flatten.length := by simp
+  generalize hQ : (encLabels P.qls ++ [0]) ++ P.q4 = Q at *
+  have hQl : Q.length = labSum P.qls + 1 + 4 := by
+    rw [← hQ]; simp only [List.length_append, P.hq4, encLabels_length, List.length_cons, List.length_nil]
+  have hpk : pp.packet = (P.hdr ++ Q ++ A1.flatten) ++ rc ++ (A2.flatten ++ P.N.flatten ++ P.R.flatten) := by
+    rw [P.bytes, hsplit, hQ]; simp
+  have hprel : (P.hdr ++ Q ++ A1.flatten).length = 12 + labSum P.qls + 1 + 4 + A1.flatten.length := by
+    simp only [List.length_append, P.hh, hQl]; omega
+  have hcut := cut_mid (P.hdr ++ Q ++ A1.flatten) rc (A2.flatten ++ P.N.flatten ++ P.R.flatten)
+  rw [← hpk, hprel] at hcut
+  have hcut' : pp.packet.take (12 + labSum P.qls + 1 + 4 + A1.flatten.length) ++
+      pp.packet.drop (12 + labSum P.qls + 1 + 4 + A1.flatten.length + rc.length) =
+      P.hdr ++ (Q ++ (A1 ++ A2).flatten ++ P.N.flatten ++ P.R.flatten) := by rw [hcut]; simp
+  have hcs : c.currentSection pp = .ok .answer := by
+    unfold Cursor.currentSection
+    simp only [hoff, P.oq, P.oa, P.on, P.oR, optLt, optGe, hAf]
+    have ha : P.A.length > 0 := by omega
+    simp only [ha, if_true]
+    generalize A1.flatten.length = a1
+    generalize A2.flatten.length = a2
+    generalize P.N.flatten.length = nf
+    generalize rc.length = rl at hrc
+    have h1 : ¬ (12 + labSum P.qls + 1 + 4 + a1 < 12) := by omega
+    have h2 : ¬ (12 + labSum P.qls + 1 + 4 + (a1 + rl + a2) + nf ≤ 12 + labSum P.qls + 1 + 4 + a1) := by omega
+    have h3 : ¬ (a1 + rl + a2 ≤ a1) := by omega
+    by_cases hn : P.N.length > 0 <;> by_cases hr : P.R.length > 0 <;> simp [hn, hr, h1, h2, h3]
+  have hopt : (if Section.answer == Section.additional then do let t ← c.rrType pp.packet; pure (t == TYPE_OPT) else pure false) = Res.ok false := rfl
+  rw [← hnext] at hcut'
+  obtain ⟨hdr', hrun, hh', hg6, hgo⟩ := deleteRR_run pp c _ .answer false hoff hcs (by decide) P.mc hopt (by omega) (by omega) hcut' P.hh
+    (by simp only [sectionCountOffset]; rw [P.hca]; omega)
+  simp only [sectionCountOffset] at hg6 hgo hrun
+  have e1 : c.offsetNext - (12 + labSum P.qls + 1 + 4 + A1.flatten.length) = rc.length := by omega
+  rw [e1, P.hca] at hrun
+  rw [P.hca] at hg6
+  refine ⟨_, ⟨hdr', P.q4, P.qls, A1 ++ A2, P.N, P.R, P.o2, P.o3, P.o4, hh', ?_, P.hgq, P.hq4, P.hcl,
+    ?_, P.hN, P.hR, by rw [hg6]; simp; omega, ?_, ?_, ?_, ?_, ?_, ?_, ?_, ?_, ?_⟩,
+    hrun, rfl, rfl, rfl, rfl, rfl, hgo, ?_, ?_, ?_, ?_, ?_, ?_⟩
+  · rw [hgo 4 (by omega)]; exact P.hqd
+  · have := P.hA
+    rw [hsplit] at this
+    obtain ⟨oe', h1, h2⟩ := pieces_remove this
+    rw [h2 (by decide)] at h1
+    exact h1
+  · rw [hgo 8 (by omega)]; exact P.hcn
+  · rw [hgo 10 (by omega)]; exact P.hcr
+  · intro hq; rw [hgo 2 (by omega)] at hq
+    have := P.hqr hq
+    rw [hsplit] at this
+    simp at this
+  all_goals obtain ⟨f1, f2, f3, f4, f5, f6, f7, f8, f9, f10, f11, f12, f13⟩ :=
+    afterDelete_fields pp c .answer rc.length false (hdr' ++ (Q ++ (A1 ++ A2).flatten ++ P.N.flatten ++ P.R.flatten)) (P.A.length - 1)
+  · rw [f1, hQ]; simp
+  · rw [f4]; simp [P.oq]
+  · rw [f5, P.oa]
+    have e : (A1 ++ A2).length = P.A.length - 1 := by simp; omega
+    rw [e]
+    by_cases h0 : P.A.length - 1 = 0
+    · rw [if_pos ⟨rfl, h0⟩, if_neg (by omega)]
+    · rw [if_neg (by simp [h0]), if_neg (by decide), if_pos (by omega), if_pos (by omega)]
+  · rw [f6, P.on, if_neg (by simp), if_pos (Or.inr rfl)]
+    by_cases hn : P.N.length > 0
+    · rw [if_pos hn, if_pos hn, Option.map_some, shiftNat_neg (by omega)]; congr 1; omega
+    · rw [if_neg hn, if_neg hn]; rfl
+  · rw [f7, P.oR, if_neg (by simp), if_pos (Or.inr (Or.inl rfl))]
+    by_cases hr : P.R.length > 0
+    · rw [if_pos hr, if_pos hr, Option.map_some, shiftNat_neg (by omega)]; congr 1; omega
+    · rw [if_neg hr, if_neg hr]; rfl
+  · rw [f2]; exact P.mc
+  · rw [f9]; rfl
+  · rw [f10]; rfl
+  · rw [f11]; rfl
+  · rw [f12]; rfl
+  · rw [f13]; rfl
+  · rw [f8]; rfl
+
+end Dns
+
+namespace Dns
+open Res
+
+/-- **deleting a record of the authority section of a plain object** -/
+theorem delete_authority {pp : PP} (P : PlainObj pp) (N1 N2 : List Bytes) (rc : Bytes) (hsplit : P.N = N1 ++ rc :: N2)
+    (hrc : 0 < rc.length) (c : Cursor)
+    (hoff : c.offset = some (12 + labSum P.qls + 1 + 4 + P.A.flatten.length + N1.flatten.length))
+    (hnext : c.offsetNext = 12 + labSum P.qls + 1 + 4 + P.A.flatten.length + N1.flatten.length + rc.length) :
+    ∃ (pp' : PP) (P' : PlainObj pp'),
+      deleteRR pp c = .ok { pp := pp', cur := { c with offsetNext := 12 + labSum P.qls + 1 + 4 + P.A.flatten.length + N1.flatten.length, offset := none }, result := none } ∧
+      P'.A = P.A ∧ P'.N = N1 ++ N2 ∧ P'.R = P.R ∧ P'.qls = P.qls ∧ P'.q4 = P.q4 ∧
+      (∀ k, (k + 1 < 8 ∨ 9 < k) → get16 P'.hdr k = get16 P.hdr k) ∧
+      pp'.ednsCount = pp.ednsCount ∧ pp'.extRcode = pp.extRcode ∧ pp'.ednsVersion = pp.ednsVersion ∧
+      pp'.extFlags = pp.extFlags ∧ pp'.maxPayload = pp.maxPayload ∧
+      pp'.offsetEdns = (if optLt c.offset pp.offsetEdns then pp.offsetEdns.map (fun x => shiftNat x (-(Int.ofNat rc.length))) else pp.offsetEdns) := by
+  have hlen := P.len
+  have hNl : P.N.length = N1.length + N2.length + 1 := by rw [hsplit]; simp; omega
+  have hNf : P.N.flatten.length = N1.flatten.length + rc.length + N2.flatten.length := by rw [hsplit]; simp; omega
+  have hN' : (N1 ++ N2).flatten.length = N1.flatten.length + N2.flatten.length := by simp
+  generalize hQ : (encLabels P.qls ++ [0]) ++ P.q4 = Q at *
+  have hQl : Q.length = labSum P.qls + 1 + 4 := by
+    rw [← hQ]; simp only [List.length_append, P.hq4, encLabels_length, List.length_cons, List.length_nil]
+  have hpk : pp.packet = (P.hdr ++ Q ++ P.A.flatten ++ N1.flatten) ++ rc ++ (N2.flatten ++ P.R.flatten) := by
+    rw [P.bytes, hsplit, hQ]; simp
+  have hprel : (P.hdr ++ Q ++ P.A.flatten ++ N1.flatten).length = 12 + labSum P.qls + 1 + 4 + P.A.flatten.length + N1.flatten.length := by
+    simp only [List.length_append, P.hh, hQl]; omega
+  have hcut := cut_mid (P.hdr ++ Q ++ P.A.flatten ++ N1.flatten) rc (N2.flatten ++ P.R.flatten)
+  rw [← hpk, hprel] at hcut
+  have hcut' : pp.packet.take (12 + labSum P.qls + 1 + 4 + P.A.flatten.length + N1.flatten.length) ++
+      pp.packet.drop (12 + labSum P.qls + 1 + 4 + P.A.flatten.length + N1.flatten.length + rc.length) =
+      P.hdr ++ (Q ++ P.A.flatten ++ (N1 ++ N2).flatten ++ P.R.flatten) := by rw [hcut]; simp
+  have hcs : c.currentSection pp = .ok .nameServers := by
+    unfold Cursor.currentSection
+    simp only [hoff, P.oq, P.oa, P.on, P.oR, optLt, optGe, hNf]
+    have hn : P.N.length > 0 := by omega
+    simp only [hn, if_true]
+    generalize N1.flatten.length = n1
+    generalize N2.flatten.length = n2
+    generalize P.A.flatten.length = af
+    generalize rc.length = rl at hrc
+    have h1 : ¬ (12 + labSum P.qls + 1 + 4 + af + n1 < 12) := by omega
+    have h2 : ¬ (12 + labSum P.qls + 1 + 4 + af + (n1 + rl + n2) ≤ 12 + labSum P.qls + 1 + 4 + af + n1) := by omega
+    have h3 : ¬ (12 + labSum P.qls + 1 + 4 + af + n1 < 12 + labSum P.qls + 1 + 4 + af) := by omega
+    have h4 : ¬ (n1 + rl + n2 ≤ n1) := by omega
+    by_cases ha : P.A.length > 0 <;> by_cases hr : P.R.length > 0 <;> simp [ha, hr, h1, h2, h3, h4]
+  have hopt : (if Section.nameServers == Section.additional then do let t ← c.rrType pp.packet; pure (t == TYPE_OPT) else pure false) = Res.ok false := rfl
+  rw [← hnext] at hcut'
+  obtain ⟨hdr', hrun, hh', hg6, hgo⟩ := deleteRR_run pp c _ .nameServers false hoff hcs (by decide) P.mc hopt (by omega) (by omega) hcut' P.hh
+    (by simp only [sectionCountOffset]; rw [P.hcn]; omega)
+  simp only [sectionCountOffset] at hg6 hgo hrun
+  have e1 : c.offsetNext - (12 + labSum P.qls + 1 + 4 + P.A.flatten.length + N1.flatten.length) = rc.length := by omega
+  rw [e1, P.hcn] at hrun
+  rw [P.hcn] at hg6
+  refine ⟨_, ⟨hdr', P.q4, P.qls, P.A, N1 ++ N2, P.R, P.o2, P.o3, P.o4, hh', ?_, P.hgq, P.hq4, P.hcl,
+    P.hA, ?_, P.hR, ?_, by rw [hg6]; simp; omega, ?_, ?_, ?_, ?_, ?_, ?_, ?_, ?_⟩,
+    hrun, rfl, rfl, rfl, rfl, rfl, hgo, ?_, ?_, ?_, ?_, ?_, ?_⟩
+  · rw [hgo 4 (by omega)]; exact P.hqd
+  · have := P.hN
+    rw [hsplit] at this
+    obtain ⟨oe', h1, h2⟩ := pieces_remove this
+    rw [h2 (by decide)] at h1
+    exact h1
+  · rw [hgo 6 (by omega)]; exact P.hca
+  · rw [hgo 10 (by omega)]; exact P.hcr
+  · intro hq; rw [hgo 2 (by omega)] at hq
+    have := P.hqr hq
+    rw [hsplit] at this
+    simp at this
+  all_goals obtain ⟨f1, f2, f3, f4, f5, f6, f7, f8, f9, f10, f11, f12, f13⟩ :=
+    afterDelete_fields pp c .nameServers rc.length false (hdr' ++ (Q ++ P.A.flatten ++ (N1 ++ N2).flatten ++ P.R.flatten)) (P.N.length - 1)
+  · rw [f1, hQ]; simp
+  · rw [f4]; simp [P.oq]
+  · rw [f5, P.oa, if_neg (by simp), if_neg (by decide)]
+  · rw [f6, P.on]
+    have e : (N1 ++ N2).length = P.N.length - 1 := by simp; omega
+    rw [e]
+    by_cases h0 : P.N.length - 1 = 0
+    · rw [if_pos ⟨rfl, h0⟩, if_neg (by omega)]
+    · rw [if_neg (by simp [h0]), if_neg (by decide), if_pos (by omega), if_pos (by omega)]
+  · rw [f7, P.oR, if_neg (by simp), if_pos (Or.inr (Or.inr rfl))]
+    by_cases hr : P.R.length > 0
+    · rw [if_pos hr, if_pos hr, Option.map_some, shiftNat_neg (by omega)]; congr 1; omega
+    · rw [if_neg hr, if_neg hr]; rfl
+  · rw [f2]; exact P.mc
+  · rw [f9]; rfl
+  · rw [f10]; rfl
+  · rw [f11]; rfl
+  · rw [f12]; rfl
+  · rw [f13]; rfl
+  · rw [f8]; rfl
+
+end Dns
+
+namespace Dns
+open Res
+
+/-- **deleting a record of the additional section of a plain object** (`t` = its type: 41 clears the EDNS summary) -/
+theorem delete_additional {pp : PP} (P : PlainObj pp) (R1 R2 : List Bytes) (rc : Bytes) (hsplit : P.R = R1 ++ rc :: R2)
+    (hrc : 0 < rc.length) (c : Cursor) (t : Nat) (hty : c.rrType pp.packet = .ok t)
+    (hoff : c.offset = some (12 + labSum P.qls + 1 + 4 + P.A.flatten.length + P.N.flatten.length + R1.flatten.length))
+    (hnext : c.offsetNext = 12 + labSum P.qls + 1 + 4 + P.A.flatten.length + P.N.flatten.length + R1.flatten.length + rc.length) :
+    ∃ (pp' : PP) (P' : PlainObj pp'),
+      deleteRR pp c = .ok { pp := pp', cur := { c with offsetNext := 12 + labSum P.qls + 1 + 4 + P.A.flatten.length + P.N.flatten.length + R1.flatten.length, offset := none }, result := none } ∧
+      P'.A = P.A ∧ P'.N = P.N ∧ P'.R = R1 ++ R2 ∧ P'.qls = P.qls ∧ P'.q4 = P.q4 ∧
+      (∀ k, (k + 1 < 10 ∨ 11 < k) → get16 P'.hdr k = get16 P.hdr k) ∧
+      pp'.ednsCount = (if t == TYPE_OPT then 0 else pp.ednsCount) ∧ pp'.extRcode = (if t == TYPE_OPT then none else pp.extRcode) ∧
+      pp'.ednsVersion = (if t == TYPE_OPT then none else pp.ednsVersion) ∧
+      pp'.extFlags = (if t == TYPE_OPT then none else pp.extFlags) ∧ pp'.maxPayload = (if t == TYPE_OPT then 512 else pp.maxPayload) ∧
+      pp'.offsetEdns = (if t == TYPE_OPT then none else if optLt c.offset pp.offsetEdns then pp.offsetEdns.map (fun x => shiftNat x (-(Int.ofNat rc.length))) else pp.offsetEdns) := by
+  have hlen := P.len
+  have hRl : P.R.length = R1.length + R2.length + 1 := by rw [hsplit]; simp; omega
+  have hRf : P.R.flatten.length = R1.flatten.length + rc.length + R2.flatten.length := by rw [hsplit]; simp; omega
+  have hR' : (R1 ++ R2).flatten.length = R1.flatten.length + R2.flatten.length := by simp
+  generalize hQ : (encLabels P.qls ++ [0]) ++ P.q4 = Q at *
+  have hQl : Q.length = labSum P.qls + 1 + 4 := by
+    rw [← hQ]; simp only [List.length_append, P.hq4, encLabels_length, List.length_cons, List.length_nil]
+  have hpk : pp.packet = (P.hdr ++ Q ++ P.A.flatten ++ P.N.flatten ++ R1.flatten) ++ rc ++ R2.flatten := by
+    rw [P.bytes, hsplit, hQ]; simp
+  have hprel : (P.hdr ++ Q ++ P.A.flatten ++ P.N.flatten ++ R1.flatten).length =
+      12 + labSum P.qls + 1 + 4 + P.A.flatten.length + P.N.flatten.length + R1.flatten.length := by
+    simp only [List.length_append, P.hh, hQl]; omega
+  have hcut := cut_mid (P.hdr ++ Q ++ P.A.flatten ++ P.N.flatten ++ R1.flatten) rc R2.flatten
+  rw [← hpk, hprel] at hcut
+  have hcut' : pp.packet.take (12 + labSum P.qls + 1 + 4 + P.A.flatten.length + P.N.flatten.length + R1.flatten.length) ++
+      pp.packet.drop (12 + labSum P.qls + 1 + 4 + P.A.flatten.length + P.N.flatten.length + R1.flatten.length + rc.length) =
+      P.hdr ++ (Q ++ P.A.flatten ++ P.N.flatten ++ (R1 ++ R2).flatten) := by rw [hcut]; simp
+  have hcs : c.currentSection pp = .ok .additional := by
+    unfold Cursor.currentSection
+    simp only [hoff, P.oq, P.oa, P.on, P.oR, optLt, optGe]
+    have hr : P.R.length > 0 := by omega
+    simp only [hr, if_true]
+    generalize R1.flatten.length = r1
+    generalize P.A.flatten.length = af
+    generalize P.N.flatten.length = nf
+    have h1 : ¬ (12 + labSum P.qls + 1 + 4 + af + nf + r1 < 12) := by omega
+    have h2 : ¬ (12 + labSum P.qls + 1 + 4 + af + nf + r1 < 12 + labSum P.qls + 1 + 4 + af + nf) := by omega
+    simp [h1, h2]
+  have hopt : (if Section.additional == Section.additional then do let t ← c.rrType pp.packet; pure (t == TYPE_OPT) else pure false) =
+      Res.ok (t == TYPE_OPT) := by
+    simp [hty]
+  rw [← hnext] at hcut'
+  obtain ⟨hdr', hrun, hh', hg6, hgo⟩ := deleteRR_run pp c _ .additional (t == TYPE_OPT) hoff hcs (by decide) P.mc hopt (by omega) (by omega) hcut' P.hh
+    (by simp only [sectionCountOffset]; rw [P.hcr]; omega)
+  simp only [sectionCountOffset] at hg6 hgo hrun
+  have e1 : c.offsetNext - (12 + labSum P.qls + 1 + 4 + P.A.flatten.length + P.N.flatten.length + R1.flatten.length) = rc.length := by omega
+  rw [e1, P.hcr] at hrun
+  rw [P.hcr] at hg6
+  have hR0 := P.hR
+  rw [hsplit] at hR0
+  obtain ⟨o4', hR1, _⟩ := pieces_remove hR0
+  refine ⟨_, ⟨hdr', P.q4, P.qls, P.A, P.N, R1 ++ R2, P.o2, P.o3, o4', hh', ?_, P.hgq, P.hq4, P.hcl,
+    P.hA, P.hN, hR1, ?_, ?_, by rw [hg6]; simp; omega, ?_, ?_, ?_, ?_, ?_, ?_, ?_⟩,
+    hrun, rfl, rfl, rfl, rfl, rfl, hgo, ?_, ?_, ?_, ?_, ?_, ?_⟩
+  · rw [hgo 4 (by omega)]; exact P.hqd
+  · rw [hgo 6 (by omega)]; exact P.hca
+  · rw [hgo 8 (by omega)]; exact P.hcn
+  · intro hq; rw [hgo 2 (by omega)] at hq
+    exact P.hqr hq
+  all_goals obtain ⟨f1, f2, f3, f4, f5, f6, f7, f8, f9, f10, f11, f12, f13⟩ :=
+    afterDelete_fields pp c .additional rc.length (t == TYPE_OPT) (hdr' ++ (Q ++ P.A.flatten ++ P.N.flatten ++ (R1 ++ R2).flatten)) (P.R.length - 1)
+  · rw [f1, hQ]; simp
+  · rw [f4]; simp [P.oq]
+  · rw [f5, P.oa, if_neg (by simp), if_neg (by decide)]
+  · rw [f6, P.on, if_neg (by simp), if_neg (by simp)]
+  · rw [f7, P.oR]
+    have e : (R1 ++ R2).length = P.R.length - 1 := by simp; omega
+    rw [e]
+    by_cases h0 : P.R.length - 1 = 0
+    · rw [if_pos ⟨rfl, h0⟩, if_neg (by omega)]
+    · rw [if_neg (by simp [h0]), if_neg (by simp), if_pos (by omega), if_pos (by omega)]
+  · rw [f2]; exact P.mc
+  · rw [f9]
+  · rw [f10]
+  · rw [f11]
+  · rw [f12]
+  · rw [f13]
+  · rw [f8]
 
 end Dns
